@@ -29,8 +29,9 @@ def tiers(prop, tier):
         return [(c, 0, 400000) for c in cfgs] + [('asan-sse2@lite', 0, 50000), ('asan-avx2@lite', 0, 50000)]
     if prop == 'C18':
         if q:
-            return [('sse2-base@lite', 0, 30000), ('avx512@lite', 0, 30000), ('avx2-checks@lite', 0, 30000)]
+            return [('sse2-base@lite', 0, 30000), ('avx512@lite', 0, 30000), ('avx2-checks@lite', 0, 30000), ('avx2-mapparent@lite', 0, 15000)]
         cfgs = ['sse2-base', 'sse42', 'avx', 'avx2', 'avx512', 'avx512-cxx17', 'sse2-vecassign', 'avx512-vecassign', 'avx2-checks',
+                'sse2-mapparent', 'avx2-mapparent', 'avx512-mapparent-vecassign', 'clang-avx512-mapparent',
                 'avx2-dontalign', 'scalar', 'O0-debug', 'O3-avx2', 'clang-sse2', 'clang-avx2', 'clang-avx512']
         return [(c, 0, 400000) for c in cfgs] + [('asan-sse2@lite', 0, 50000), ('asan-avx2@lite', 0, 50000)]
     if prop == 'C20':
@@ -441,8 +442,8 @@ def viewsim_universe(t, shape, config, flags):
             src.append(src_for(rr, n, g))
         nm = f'fix_write<{uname}|{name(w)}>'
         fix.append((nm, 'fix_write', f'FixWrite<U, seqs<{",".join(fs(r) for r in w)}>, seqs<{",".join(fs(r) for r in src)}>>::go', 'P_C05'))
-    # ---- C18 fixed aliasing pairs (rank <= 3)
-    if R <= 3 and not mapparent:
+    # ---- C18 fixed aliasing pairs (rank <= 3); also on map parents: noalias() on COMPILE-TIME views of a map does compile
+    if R <= 3:
         pairs = []
         for k in range(R):
             n = shape[k]
